@@ -431,7 +431,7 @@ func genC10(t *rapid.T) *c10Case {
 	if n(6, "special") == 0 {
 		c.Special = rapid.SampledFrom([]string{"nan", "+inf", "-inf", "nan32"}).Draw(t, "specialkind")
 	}
-	switch n(12, "target") {
+	switch n(13, "target") {
 	case 11:
 		// defaults-centric: schemas with `default` at any depth of properties meeting instances of any
 		// shape in any representation (typed maps, named string key types): ApplyDefaults assigns
@@ -579,8 +579,8 @@ func genC10(t *rapid.T) *c10Case {
 		if n(6, "oddbase") == 0 {
 			c.BaseURI = rapid.SampledFrom([]string{"", "http://b.test/x.json#f", "rel.json", "::"}).Draw(t, "ubase")
 		}
-		c.Loader = rapid.SampledFrom([]string{"docs", "error", "wrong", "self", "nil", "nilnil"}).Draw(t, "uloader")
-		if n(3, "faults") == 0 {
+		c.Loader = rapid.SampledFrom([]string{"docs", "docs", "docs", "docs", "error", "wrong", "self", "nil", "nilnil"}).Draw(t, "uloader")
+		if n(4, "faults") == 0 {
 			for _, k := range sortedKeys(c.U.Docs) {
 				if n(2, "faulty") == 0 {
 					c.U.Faults = append(c.U.Faults, k)
